@@ -21,6 +21,7 @@ type statusEvent struct {
 	P   int64  `json:"p"`
 	Age int64  `json:"age"`
 	Sub int64  `json:"sub"`
+	Lag int64  `json:"lag"`
 }
 
 type statusRec struct {
@@ -55,6 +56,9 @@ func runStatus(t *testing.T, inp *Input, tr int, beh []json.RawMessage, out func
 			cs = tmtypes.NewClientState("x-1", tmtypes.DefaultTrustLevel, time.Duration(ev.P)*time.Second, time.Duration(ev.P)*time.Second*2+time.Hour,
 				10*time.Second, height, commitmenttypes.GetSDKSpecs(), tibctesting.Prefix, 0)
 			ck.SetClientConsensusState(ctx, name, height, &tmtypes.ConsensusState{Timestamp: latest, Root: commitmenttypes.NewMerkleRoot([]byte("root")), NextValidatorsHash: make([]byte, 32)})
+			// the moment this chain stored the state (metadata written by every real update)
+			tmtypes.SetProcessedTime(ck.ClientStore(ctx, name), height, uint64(latest.Add(time.Duration(ev.Lag)*time.Second).UnixNano()))
+			tmtypes.SetIterationKey(ck.ClientStore(ctx, name), height)
 		case "bsc":
 			cs = &bsctypes.ClientState{Header: bsctypes.Header{Height: height}, TrustingPeriod: uint64(ev.P)}
 			ck.SetClientConsensusState(ctx, name, height, &bsctypes.ConsensusState{Timestamp: uint64(latest.Unix()), Number: height, Root: []byte("root")})
